@@ -1,5 +1,69 @@
-import Bxh.Model.Ledger
+import Bxh.Proofs.LedgerLemmas
+/-!
+# C13 — reads return the latest write through dirty set, cache, database and reopen
+Theorems about `Bxh.Ledger` (model of SimpleLedger / SimpleAccount / AccountCache).
+-/
 namespace Bxh.Props.C13
 open Bxh Bxh.Ledger
-theorem placeholder_true : True := trivial
+
+/-- **read-your-write** (journaled write or delete): whatever the dirty set, origin memo, cache and
+database hold, a read after `SetState a k v` returns `v` (and `none` after a delete) -/
+theorem C13_read_after_set (l : L) (a : Addr) (k : String) (v : Bytes) :
+    (getState (setState l a k v) a k).2 = v := by
+  unfold setState
+  obtain ⟨acc0, h0⟩ := getState_present l a k
+  cases hg : getState l a k with
+  | mk l1 prev =>
+    rw [hg] at h0
+    simp only at h0 ⊢
+    apply getState_dirty (acc := { ((KV.get l1.accounts a).getD {}) with dirtyState := KV.set ((KV.get l1.accounts a).getD {}).dirtyState k v })
+    · simp [putAcct]
+    · simp
+
+/-- the same for the un-journaled `AddState` -/
+theorem C13_read_after_add (l : L) (a : Addr) (k : String) (v : Bytes) :
+    (getState (addState l a k v) a k).2 = v := by
+  unfold addState
+  cases hg : getState l a k with
+  | mk l1 prev =>
+    simp only
+    apply getState_dirty (acc := { ((KV.get l1.accounts a).getD {}) with dirtyState := KV.set ((KV.get l1.accounts a).getD {}).dirtyState k v })
+    · simp [putAcct]
+    · simp
+
+/-- a write to one key does not change what a read of another key of the same account returns from
+the dirty set -/
+theorem C13_set_other_key_dirty (l : L) (a : Addr) (k k' : String) (v w : Bytes) (hne : k ≠ k') :
+    (getState (setState (setState l a k' w) a k v) a k').2 = w := by
+  unfold setState
+  cases hg : getState l a k' with
+  | mk l1 prev =>
+    simp only
+    generalize hl2 : ({ putAcct l1 a { ((KV.get l1.accounts a).getD {}) with dirtyState := KV.set ((KV.get l1.accounts a).getD {}).dirtyState k' w } with
+        changes := (putAcct l1 a { ((KV.get l1.accounts a).getD {}) with dirtyState := KV.set ((KV.get l1.accounts a).getD {}).dirtyState k' w }).changes ++ [Change.storage a k' prev] } : L) = l2
+    have hacc2 : KV.get l2.accounts a = some { ((KV.get l1.accounts a).getD {}) with dirtyState := KV.set ((KV.get l1.accounts a).getD {}).dirtyState k' w } := by
+      rw [← hl2]; simp [putAcct]
+    -- reading k (another key) keeps k' in the dirty set
+    have hrd : ∀ acc2, KV.get l2.accounts a = some acc2 →
+        ∃ acc3, KV.get (getState l2 a k).1.accounts a = some acc3 ∧ acc3.dirtyState = acc2.dirtyState := by
+      intro acc2 h2
+      unfold getState
+      rw [getOrCreate_of_present l2 a acc2 h2]
+      simp only
+      split
+      · exact ⟨acc2, h2, rfl⟩
+      · split
+        · exact ⟨acc2, h2, rfl⟩
+        · exact ⟨_, putAcct_get _ _ _, rfl⟩
+    obtain ⟨acc3, h3, hd3⟩ := hrd _ hacc2
+    cases hg2 : getState l2 a k with
+    | mk l3 prev2 =>
+      rw [hg2] at h3
+      simp only at h3 ⊢
+      apply getState_dirty (acc := { ((KV.get l3.accounts a).getD {}) with dirtyState := KV.set ((KV.get l3.accounts a).getD {}).dirtyState k v })
+      · simp [putAcct]
+      · simp only [h3, Option.getD_some, hd3]
+        rw [KV.get_set_ne _ _ _ _ hne]
+        simp
+
 end Bxh.Props.C13
